@@ -19,6 +19,8 @@ var (
 	be = binary.BigEndian
 )
 
+const maxInt = int(^uint(0) >> 1)
+
 type decoder struct {
 	r     io.Reader
 	bytes struct {
@@ -128,6 +130,12 @@ func (d *decoder) decode(r io.Reader, headerOnly, fileIDOnly, crcOnly bool) erro
 
 	d.file = new(File)
 	d.file.Header = d.h
+	if !headerOnly && !crcOnly && uint64(d.h.DataSize) > uint64(maxInt) {
+		// The data is parsed with int offsets: on platforms where int
+		// is 32 bits wide a larger data size would wrap to a negative
+		// limit and the buffer arithmetic in fill would panic.
+		return FormatError("data size in header exceeds the supported range")
+	}
 	d.bytes.limit = int(d.h.DataSize)
 
 	if d.debug {
